@@ -18,7 +18,7 @@ LEVEL = "model_checking"
 
 VH_DEFECTS = ("NoSort", "SuffixMayEqualHost", "AnyPortFirst", "EmptyHostNone")
 RT_DEFECTS = ("HeaderDisjunction", "FastMatchIgnoresRegexFlag", "VarLeftToRight", "PrefixAsContains", "LastMatchWins",
-              "DslErrorHolds", "QueryAnyMatcher", "LastIndexedWins", "SkipAbsentCluster")
+              "DslErrorHolds", "QueryAnyMatcher", "LastIndexedWins", "SkipAbsentCluster", "RegexMatchFromStartOnly")
 CATCHALL = {"k": "rpc", "pa": [], "re": "", "hs": [], "vs": [], "qs": [], "ds": []}
 DEFAULT_DOM = {"h": ["*"], "p": ""}
 
